@@ -63,6 +63,53 @@ def run_real_c12(case):
             ok = pool.wait_states(lambda st: len(st) == 1 + nskip + n and all(v in ("FAILED", "COMPLETED", "CANCELLED", "KILLED") for v in st.values()), timeout=60)
             if not ok:
                 raise Inconclusive("real pool did not finish in time: %s" % pool.states())
+        # --- a core is only free when the processes of the task that held it are gone: tasks whose shell has
+        # exited but whose background child is alive (time limit), and tasks with a child that ignores SIGTERM
+        # (cancel), each followed by a queued task on a ONE-core pool
+        scen = [
+            ("bg-timeout", "sleep @M@ &\necho started\nexit 0\n", 1, False),
+            ("term-ignoring-cancel", "( trap '' TERM; exec sleep @M@ )\necho done\n", None, True),
+            ("bg-cancel", "sleep @M@ &\necho started\nexit 0\n", None, True),
+        ]
+        name, script, tl, do_cancel = scen[case["seed"] % len(scen)]
+        uniq = "%05d%04d" % (os.getpid() % 100000, int(time.time() * 10) % 10000)
+        marker = "30%d.%06d%s" % (4 + case["seed"] % 3, rng.randrange(10**6), uniq)
+        with gen.Project() as proj2:
+            J2 = os.path.join(proj2.base, "j2.txt")
+            proj2.write_workflow("from gwf import Workflow\ngwf = Workflow()\n")
+            with realpool.Pool(proj2, ncores=1) as pool:
+                ta = pool.raw_enqueue("holder", script.replace("@M@", marker), proj2.root, time_limit=tl, deps=[])
+                pool.wait_states(lambda st: st.get(ta) == "RUNNING", timeout=20)
+                time.sleep(0.5)
+                tb = pool.raw_enqueue("next", 'echo "start next $$ $(date +%%s%%N)" >> %s\nsleep 1.5\n' % J2, proj2.root, time_limit=None, deps=[])
+                if do_cancel:
+                    c = pool.client()
+                    c.send("cancel_task", tid=ta)
+                    c.close()
+                # the moment the queued task starts, nothing of the holder may be alive any more
+                t0 = time.time()
+                started = False
+                while time.time() - t0 < 40:
+                    if _journal_lines(J2):
+                        started = True
+                        break
+                    time.sleep(0.02)
+                alive = marker_pids(marker)
+                res.mon("real_intervals")
+                res.mon("handover_checked")
+                if not started:
+                    st = pool.states()
+                    if st.get(ta) in ("CANCELLED", "KILLED", "FAILED", "COMPLETED"):
+                        res.violation("idle-core", "scenario %s: the queued task never started although the holder is %s" % (name, st.get(ta)), states=st)
+                    else:
+                        raise Inconclusive("scenario %s: holder still %s after 40 s" % (name, st.get(ta)))
+                elif alive:
+                    res.violation("too-many-live", "scenario %s on a 1-core pool: the next task started while process(es) %s of the previous task were still alive" % (name, alive), states=pool.states())
+                for p in marker_pids(uniq):
+                    try:
+                        os.kill(p, 9)
+                    except OSError:
+                        pass
         ev = []
         for parts in _journal_lines(J):
             if len(parts) == 4:
